@@ -505,6 +505,111 @@ def random_traces(thorough, r, traces):
                                  pick_origins(r, len(st[0]), cap, 4 if thorough else 3)))
 
 
+def execute_via_receiver(pk, arr, seq_origin, ts_origin, empty):
+    """Feed the schedule through a real audio RTCRtpReceiver (_handle_rtp_packet: codec lookup,
+    depayload, jitter buffer with capacity 16 / prefetch 4).  The jitter buffer's add() is wrapped
+    so that every arrival yields the same output record as execute(); an arrival that the receiver
+    never hands to the buffer yields an empty record.  Packets in `empty` carry an empty RTP
+    payload (padding-only / probing packets, which still occupy a sequence number)."""
+    import asyncio
+    from aiortc import RTCRtpReceiver
+    from aiortc.rtcrtpparameters import RTCRtpCodecParameters, RTCRtpReceiveParameters
+    from aiortc.rtp import RtpPacket
+    n = len(pk)
+
+    class FakeTransport:
+        def __init__(self):
+            self.state = "connected"
+            self._rtp_router = None
+
+        def _register_rtp_receiver(self, receiver, parameters):
+            pass
+
+        def _unregister_rtp_receiver(self, receiver):
+            pass
+
+        async def _send_rtp(self, data):
+            pass
+
+    async def main():
+        receiver = RTCRtpReceiver("audio", FakeTransport())
+        jb = receiver._RTCRtpReceiver__jitter_buffer
+        real_add = jb.add
+        cur = {}
+        by_seq = {(seq + seq_origin) % MOD: i + 1 for i, (seq, ts, _) in enumerate(pk)}
+
+        def add(packet):
+            pid = by_seq.get(packet.sequence_number, 0)
+            packet._data = pid.to_bytes(4, "big")
+            before = _projection(jb)
+            rec = cur["rec"]
+            pli, frame = real_add(packet)
+            rec["pli"] = bool(pli)
+            if frame is not None:
+                rec["rel"] = True
+                data = bytes(frame.data)
+                ids = [int.from_bytes(data[i:i + 4], "big") for i in range(0, len(data), 4)]
+                rec["ids"] = [x if 1 <= x <= n else 0 for x in ids]
+                fts = (int(frame.timestamp) - ts_origin) % TSMOD
+                rec["fts"] = fts if fts < (1 << 30) else -2
+            after = _projection(jb)
+            if before is not None and after is not None:
+                rec["proj"] = True
+                rec["gone"] = sorted(x for x in before[0] - after[0] if 1 <= x <= n)
+                rec["occ"] = after[1]
+            return pli, None      # nothing goes on to the decoder thread
+        jb.add = add
+        from aiortc.rtcrtpreceiver import RemoteStreamTrack
+        receiver._track = RemoteStreamTrack(kind="audio")
+        codec = RTCRtpCodecParameters(mimeType="audio/PCMU", clockRate=8000, channels=1, payloadType=0)
+        await receiver.receive(RTCRtpReceiveParameters(codecs=[codec]))
+        out = []
+        for k, pid in enumerate(arr):
+            seq, ts, _ = pk[pid - 1]
+            p = RtpPacket(payload_type=0, sequence_number=(seq + seq_origin) % MOD,
+                          timestamp=(ts + ts_origin) % TSMOD, ssrc=4321,
+                          payload=b"" if pid in empty else pid.to_bytes(4, "big"))
+            rec = {"exc": False, "pli": False, "rel": False, "ids": [], "fts": -1, "proj": False, "gone": [], "occ": 0}
+            cur["rec"] = rec
+            try:
+                await receiver._handle_rtp_packet(RtpPacket.parse(p.serialize()), arrival_time_ms=k * 20)
+            except Exception as e:
+                rec["exc"] = True
+                rec["exc_type"] = type(e).__name__
+            if not rec["proj"]:
+                proj = _projection(jb)
+                if proj is not None:
+                    rec["proj"] = True
+                    rec["occ"] = proj[1]
+            out.append(rec)
+        await receiver.stop()
+        return out
+    return asyncio.run(main())
+
+
+def receiver_feed_traces(thorough, r, traces):
+    """Part 3b: the jitter buffer as the receiver feeds it (the property is anchored in
+    RTCRtpReceiver._handle_rtp_packet too): complete audio streams, in order or mildly displaced,
+    some packets padding-only; capacity 16 / prefetch 4 as configured by the receiver."""
+    n = 160 if thorough else 24
+    for _ in range(n):
+        K = r.randint(30, 90)
+        start = r.choice([0, 100, 5000])
+        st = mkstream(start, [], [1], K, 160, MOD)
+        arr = list(range(1, K + 1))
+        if r.random() < 0.5:               # mild reordering, displacement well below the capacity
+            for _k in range(r.randint(1, 4)):
+                i = r.randint(1, K - 3)
+                arr[i], arr[i + 1] = arr[i + 1], arr[i]
+        empty = set(r.sample(range(5, K - 5), r.choice([0, 1, 1, 2])))
+        origins = [(0, 0), (MOD - r.randint(2, K - 2), TSMOD - 160 * r.randint(2, K - 2))]
+        pk, fs = st
+        runs = [{"origin": [so, str(to)], "out": execute_via_receiver(pk, arr, so, to, empty)} for so, to in origins]
+        traces.append({"id": len(traces) + 1, "src": "receiver-feed", "cap": 16, "pf": 4, "video": False, "mm": MAX_MISORDER,
+                       "mod": MOD, "pk": [{"seq": a, "ts": b, "fi": c} for a, b, c in pk], "fs": list(fs), "arr": list(arr),
+                       "runs": runs, "empty": sorted(empty)})
+
+
 def regression_traces(traces):
     for path in sorted(glob.glob(os.path.join(REGRESS, "*.json"))):
         with open(path) as f:
@@ -612,6 +717,7 @@ def run():
             tm["tlc_simulate_and_lockstep_replay"] = round(time.time() - t0, 1)
             t0 = time.time()
             random_traces(thorough, r, traces)
+            receiver_feed_traces(thorough, r, traces)
             tm["random_schedules_executed"] = round(time.time() - t0, 1)
             t0 = time.time()
             val, verdicts = judge(sc, traces)
